@@ -35,7 +35,25 @@ CLAIM = dict(
           "minimiseTables_equiv + minimiseTable_equiv); the only hypotheses are the named domain restrictions. The "
           "expected deliveries are spelled out over placement / allocation / constraints (expected_cores, expected_exits); "
           "a concrete problem is run through modelPipeline in the kernel (ex_runs: final tables differ from the unminimised "
-          "ones) and satisfies every hypothesis (ex_domain, ex_placerDomain). Tied to the code on every run: (a) the real "
+          "ones) and satisfies every hypothesis (ex_domain, ex_placerDomain). WRAPPERS, proved from the SystemInfo onwards "
+          "(wrapper_pipeline_delivers, Props/C01Wrap.lean): `wrapperPipeline` models place_and_route_wrapper as the "
+          "COMPOSITION of C14's models of build_machine / build_core_constraints / build_routing_table_target_lengths with "
+          "`modelPipeline`, through an explicit bridge between C14's machine / reservation types and the stage models' "
+          "(machine02, deadLinks03, Reservation.toPC, targetsOf); for every SystemInfo in the documented domain (distinct "
+          "chips inside the extent, <= 18 cores per chip, one state per core) and every application in the domain, IF the "
+          "wrapper model returns THEN every packet of every net is delivered exactly to the allocated cores of its sinks on "
+          "the FINAL tables without any flag - on a machine whose working chips and links are exactly those the SystemInfo "
+          "reports (machine_is_sysinfo: C14 build_machine_exact carried over the bridge) - AND every allocated core is a "
+          "core the SystemInfo has on that chip and reports idle (AllocIdle: C14 reservations_partition + C05 alloc_sound: a "
+          "core reserved by build_core_constraints or beyond num_cores is never allocated; allocIdleB_iff: the decided form the "
+          "harness evaluates IS AllocIdle); every description that get_system_info returns on a machine served as C14's machine "
+          "specification says is in that domain (sidomain_of_probe), so the statement holds from the machine's memory "
+          "onwards (probed_wrapper_delivers; allocIdle_machine_state: an allocated core is a working, non-busy core of the "
+          "MACHINE STATE); wrapper_only_failure: the wrapper model fails only with the placer's error or the documented "
+          "failures of afterPlace_only_failure; the deprecated wrapper() "
+          "(reserve_monitor / align_sdram in every combination, tables by build_routing_tables) is deprecatedPipeline with "
+          "deprecated_pipeline_delivers; the hypotheses are non-vacuous and the wrapper model is run in the kernel "
+          "(exw_runs, exw_sidomain, exw_domain, exw_placerDomain). Tied to the code on every run: (a) the real "
           "pipeline (7 placers x radius x method chain x target) runs on generated graphs/machines through every public "
           "entry: hand-chained (Machine built by hand or by build_machine / build_core_constraints from a SystemInfo with "
           "busy cores; route() given core_resource positionally, by keyword or - default identifier only - not at all; "
@@ -49,12 +67,25 @@ CLAIM = dict(
           "coordinates, breadth_first chip_order, hilbert breadth_first=False, annealing effort, kernels); Lean `deliver` "
           "is executed on the final tables the entry point RETURNED for every net (base key + fillings of the don't-care "
           "bits) and its verdict compared with the deliveries expected from the returned placements, the returned "
-          "allocations UNDER THE CORES IDENTIFIER THE CALLER NAMED, and the endpoint constraints; stage "
+          "allocations UNDER THE CORES IDENTIFIER THE CALLER NAMED, and the endpoint constraints; whenever machine and "
+          "constraints came from a SystemInfo (place_and_route_wrapper, or build_machine + build_core_constraints by hand; "
+          "all seven placers) the Lean predicate `allocBad` (= AllocIdle, allocIdleB_iff) is evaluated on the returned "
+          "placements / allocations: a core handed to a vertex that the SystemInfo reports busy or does not have is the "
+          "finding `allocated-core-not-idle`; stage "
           "correspondences (C10, C04 models and the C01 type bridges) and stage hypotheses are re-checked inside every "
           "pipeline run; (b) the Lean `modelPipeline` itself is run on generated problems with the oracle inputs recorded "
           "from the hand-chained implementation with the sequential placer and compared stage by stage - placements "
           "(incl. dict order), allocations, unminimised tables (incl. chip order), FINAL tables (exact per-chip equality of "
-          "the entries), device links, and the failing stage when the implementation raises a documented error; (c) "
+          "the entries), device links, and the failing stage when the implementation raises a documented error; (b2) the "
+          "Lean `wrapperPipeline` / `deprecatedPipeline` are run against the REAL place_and_route_wrapper / wrapper() on "
+          "generated SystemInfo objects (busy cores in any state, per-chip core counts / memory / router entries, dead "
+          "chips and links, application-defined resource identifiers) with the sequential placer handed over as custom "
+          "`place=` callable and recording pass-through `allocate=` / `route=`: the Machine and the constraint list the "
+          "wrapper PASSES TO EACH OF THE THREE STAGES (canonical form, constraint order kept), the core_resource given to "
+          "route, the target lengths, and the placements / allocations / unminimised / FINAL tables it RETURNS are compared "
+          "exactly with the model's, as is the failing stage; the Lean predicate `allocBad` (= AllocIdle) is evaluated on "
+          "the placements and allocations the wrapper returned (finding `allocated-core-not-idle`) and Lean `deliver` on "
+          "the returned tables; (c) "
           "SEQUENCES of 2-4 complete pipeline runs in ONE process (different applications and key assignments on the same "
           "or on different machines) whose later key assignments are RELATED to the earlier runs: one key field for the "
           "whole sequence, hierarchical key/masks of different generality (single keys next to blocks of 2-8 keys, blocks "
@@ -112,9 +143,15 @@ CLAIM = dict(
           "raises MultisourceRouteError in the domain (tables_total_of_valid). NOT PROVED: that the model pipeline returns "
           "(delivery is conditional on every stage returning ok; the placers' and the allocator's own failure clauses are "
           "those of C02 / C05 and are not re-composed here); "
-          "nothing about rig_c_sa (opaque C kernel: judged by the oracle only) or about place_and_route_wrapper's "
-          "derivation of machine and constraints from SystemInfo (that is C14's probe_to_machine_exact; here both wrappers "
-          "are exercised by the oracle stream only). A packet returning to a chip already on its path counts as "
+          "nothing about rig_c_sa (opaque C kernel: judged by the oracle only). The wrappers' vertices_applications / "
+          "build_application_map result is independent of delivery and not modelled; the step from the machine's memory to "
+          "the SystemInfo is C14's get_system_info_exact / probe_to_machine_exact (SIDomain is what those theorems "
+          "establish for every probed machine); wrapper_pipeline_delivers keeps C02's Consistent / EmptyOK / oracle-order "
+          "hypotheses stated on the derived constraint list (WPlacerDomain; non-negative chip resources are proved, EmptyOK is "
+          "vacuous as soon as there is a vertex: emptyOK_of_vertices). The "
+          "wrapper stream runs the whole chain with the sequential placer only (the other placers through the wrappers: "
+          "oracle stream (a)). `allocated-core-not-idle` is reported as a violation of THIS property: a packet of a net whose "
+          "sink was given a busy or non-existent core is delivered to a core that is not the sink's. A packet returning to a chip already on its path counts as "
           "circulating. CHECKLIST ITEMS NOT APPLICABLE / LEFT AT THE DEFAULT (and why): `nets` and `constraints` as "
           "tuples - documented as lists, rig copies them with [:] and assigns items (tuples fail as soon as a "
           "SameChipConstraint exists); Net(sinks=tuple) - documented: a non-list is ONE vertex; one-shot iterators for "
@@ -141,7 +178,12 @@ THEOREMS = ["deliveredB_iff", "delivered_no_flag", "deliver_of_tree", "deliver_o
             # capstone (Props/C01Pipe.lean)
             "afterPlace_delivers", "afterPlace_placement", "runPlacer_feasible", "model_pipeline_delivers",
             "model_pipeline_no_flag", "expected_cores", "expected_exits", "ex_runs", "ex_domain", "ex_placerDomain",
-            "tables_total_of_valid", "afterPlace_only_failure"]
+            "tables_total_of_valid", "afterPlace_only_failure",
+            # wrappers (Props/C01Wrap.lean)
+            "domain_of_sysinfo", "placerDomain_of_sysinfo", "machine_is_sysinfo", "alloc_idle",
+            "wrapper_pipeline_delivers", "wrapper_pipeline_no_flag", "domain_deprecated", "deprecated_pipeline_delivers",
+            "exw_runs", "exw_sidomain", "exw_domain", "exw_placerDomain", "allocIdleB_iff",
+            "sidomain_of_probe", "probed_wrapper_delivers", "allocIdle_machine_state", "wrapper_only_failure", "emptyOK_of_vertices"]
 
 RULE = ("pipelines on machines 1x1..8x8 (quick) / ..24x24 (thorough), torus / mesh / partly wrapped, dead chips, links dead "
         "in one or both directions, per-chip core-count exceptions, busy cores (monitor + random) as SystemInfo core "
@@ -161,7 +203,11 @@ RULE = ("pipelines on machines 1x1..8x8 (quick) / ..24x24 (thorough), torus / me
         "some tree was repaired around dead links; distinct = distinct canonical JSON of the problem. Model-pipeline "
         "stream: the same problem generator with placer = sequential, api = hand-chained, every radius / method chain / "
         "target, router draws through the recording FakeRandom; 250 (quick) / 3000 (thorough) problems, every fourth on a "
-        "machine with 15-40% dead links. Sequence stream: 220 (quick) / 2000 (thorough) sequences of 2-4 pipeline runs on "
+        "machine with 15-40% dead links. Wrapper-model stream: the same problem generator, placer = sequential, api = "
+        "place_and_route_wrapper (3 of 4) / deprecated wrapper (1 of 4, reserve_monitor / align_sdram on and off), every radius "
+        "and method chain, targets = the SystemInfo's free router entries (1023 / 0 / 2 / 5 / 12, per-chip exceptions), resource "
+        "identifiers default or custom; 100 (quick) / 1000 (thorough) problems, every fourth on a machine with 15-40% dead "
+        "links. Sequence stream: 220 (quick) / 2000 (thorough) sequences of 2-4 pipeline runs on "
         "machines 2x1..5x1 / 4x4, placer in {sequential, hilbert, rcm, breadth_first, rand, sa-python}, api in "
         "{hand-chained, build_machine, place_and_route_wrapper with 1-5 free router entries}, methods {default, oc}, target "
         "{None, small}; one 3-6 bit key field per sequence, 2-14 nets per run in 1-4 route groups (half of them forking "
@@ -1038,6 +1084,11 @@ def lean_requests(prob, out, rng):
         # far beyond the usual size / inside a history: the delivery oracle only (the stage ties are exercised by
         # the ordinary stream)
         return reqs, idx
+    # 1c. allocated cores are idle cores of the SystemInfo (`Rig.C01Wrap.allocBad`, the decided form of `AllocIdle` of
+    # wrapper_pipeline_delivers / alloc_idle) whenever machine and constraints were derived from a SystemInfo
+    if prob["cfg"]["api"] in ("wrapper", "manual-sysinfo"):
+        reqs.append(alloc_idle_request(prob, out))
+        idx.append(("alloc_idle", None))
     # 2. C10 model on the implementation's trees
     c10nets = [{"key": p[3], "mask": p[4], "tree": tree_c10(routes[n])} for n, p in zip(nets, prob["nets"])]
     impl0 = {"ok": [[list(c), [c10.canon_entry(e) for e in es]] for c, es in out["tables0"].items()]}
@@ -1115,6 +1166,13 @@ def judge(prob, out, replies, idx):
                         findings.append(("violation", why,
                                          "net %d (source vertex %d) key %#010x: %s (%s); events %s" % (
                                              i, prob["nets"][i][0], k, why, stage, str(q["evs"])[:400])))
+        elif what == "alloc_idle":
+            if not r["holds"]:
+                v, x, y, p = r["bad"][0]
+                findings.append(("violation", "allocated-core-not-idle",
+                                 "vertex %d was allocated core %d of chip (%d, %d) although machine and constraints were "
+                                 "derived from a SystemInfo that reports that core absent or not idle (packets of nets with this "
+                                 "sink are delivered to a core that is not the sink's; %d such cores)" % (v, p, x, y, len(r["bad"]))))
         elif what == "c10.tables":
             if c10.norm_tables(meta) != c10.norm_tables(r):
                 findings.append(("mismatch", "c01.c10-tables", "routing_tree_to_tables differs from the C10 model on "
@@ -1581,6 +1639,347 @@ def eval_pipe_problems(ctx, probs):
             tags.append("pipe_mismatch_" + diff[0])
         ctx.tag(*tags)
         ctx.case(prob, st == "ok" and ("pipe_tables_changed" in tags or "pipe_repaired" in tags))
+
+
+# --------------------------------------------------------------------------------------------
+# the WRAPPER models (subject of `wrapper_pipeline_delivers` / `deprecated_pipeline_delivers`, Props/C01Wrap.lean):
+# the real place_and_route_wrapper / wrapper() with the sequential placer handed over as custom `place=` callable
+# against `Rig.C01Wrap.wrapperPipeline` / `deprecatedPipeline` - what the wrapper DERIVES from the SystemInfo and
+# PASSES to every stage (Machine, constraints, target lengths) and what it RETURNS (placements, allocations, final
+# tables) are compared exactly; the Lean predicates `allocBad` (AllocIdle) and `deliver` judge the implementation's
+# own results
+# --------------------------------------------------------------------------------------------
+STAGE_ARGS = ["vertices_resources", "nets", "machine", "constraints", "placements", "allocations", "core_resource"]
+
+
+def wrap_cfg(rng, i):
+    cfg = dict(placer="sequential", radius=rng.choice([0, 1, 2, 20, True, None]),
+               methods=rng.choice(["default", "default", "rd", "oc", "none"]), target=None, target_dict=False,
+               api="deprecated" if i % 4 == 2 else "wrapper", res=gen_res_ids(rng),
+               reserve_monitor=rng.random() < 0.6, align_sdram=rng.random() < 0.6, apps=rng.random() < 0.5,
+               **{k: v for k, v in gen_kinds(rng).items() if k in ("vkind", "subclass", "coll", "big", "memvar", "big_weight",
+                                                                   "states")})
+    return cfg
+
+
+def gen_wrap_problem(rng, sizes, i, faulty=False):
+    prob = gen_problem(rng, sizes, wrap_cfg(rng, i), faulty=faulty)
+    if prob.get("c03_rseed") is None:
+        prob["c03_rseed"] = rng.randrange(1 << 30)
+    prob["wrap"] = True
+    return prob
+
+
+def constraint_json(c, ridx, Vinv):
+    """a constraint object as the Lean side writes it (`Rig.C01Wrap.jPC`)"""
+    from rig.place_and_route.constraints import (LocationConstraint, SameChipConstraint, ReserveResourceConstraint,
+                                                 RouteEndpointConstraint, AlignResourceConstraint)
+    if isinstance(c, ReserveResourceConstraint):
+        return {"t": "res", "r": ridx.get(c.resource, -1), "start": c.reservation.start, "stop": c.reservation.stop,
+                "c": None if c.location is None else [int(c.location[0]), int(c.location[1])]}
+    if isinstance(c, AlignResourceConstraint):
+        return {"t": "align", "r": ridx.get(c.resource, -1), "a": c.alignment}
+    if isinstance(c, LocationConstraint):
+        return {"t": "loc", "v": Vinv[c.vertex], "c": [int(c.location[0]), int(c.location[1])]}
+    if isinstance(c, RouteEndpointConstraint):
+        return {"t": "ep", "v": Vinv[c.vertex], "route": int(c.route)}
+    if isinstance(c, SameChipConstraint):
+        return {"t": "same", "vs": [Vinv[v] for v in c.vertices]}
+    return {"t": "unknown", "repr": repr(c)[:80]}
+
+
+def stage_view(a, kw, ids, Vinv):
+    """what a stage callable received: canonical Machine and constraint list (by parameter name or position)"""
+    from . import c14
+    got = dict(zip(STAGE_ARGS, a))
+    got.update(kw)
+    ridx = {ids[0]: 0, ids[1]: 1, ids[2]: 2}
+    mj, ok_shape = c14.machine_json(got["machine"], ids)
+    mj["ok_shape"] = ok_shape
+    view = {"machine": mj, "constraints": [constraint_json(c, ridx, Vinv) for c in got["constraints"]]}
+    if "core_resource" in got:
+        view["core_resource"] = ridx.get(got["core_resource"], -1)
+    return view
+
+
+def run_wrapper_recorded(prob):
+    """the real place_and_route_wrapper (api wrapper) / deprecated wrapper() with recording pass-through stage
+    callables (place = sequential.place) and recorders for what `route()` draws from sets and the RNG"""
+    import rig.place_and_route as pr
+    from rig.place_and_route.place import sequential
+    from rig.place_and_route.route import ner
+    from rig.place_and_route.route import utils as rutils
+    from rig.routing_table import routing_tree_to_tables
+    from rig.routing_table.utils import build_routing_table_target_lengths
+    import rig.geometry as geometry
+    import warnings
+    from . import common
+    cfg = prob["cfg"]
+    o = build(prob)
+    ids = o["ids"]
+    tape = []
+    fake = c03.FakeRandom(prob["c03_rseed"], tape)
+    orig = (geometry.random, rutils.random, ner.ner_net, ner.copy_and_disconnect_tree)
+    per_net = []
+    seen = {}
+
+    def w_ner_net(source, destinations, width, height, wrap_around=False, radius=10):
+        dl = list(destinations)
+        per_net.append(dict(dests=[list(d) for d in dl], start=len(tape), order=[]))
+        return orig[2](source, dl, width, height, wrap_around, radius)
+
+    def w_copy(root, m):
+        new_root, lookup, broken = orig[3](root, m)
+        per_net[-1]["order"] = [[p[0], p[1], c[0], c[1]] for p, c in broken]
+        return new_root, lookup, broken
+    deprecated = cfg["api"] == "deprecated"
+    out = dict(o=o, methods=["rd-only"] if deprecated else METHODS[cfg["methods"]], per_net=per_net, tape=tape, seen=seen)
+
+    def rec_place(*a, **kw):
+        out["stage"] = "place"
+        seen["place"] = stage_view(a, kw, ids, o["Vinv"])
+        out["placements"] = sequential.place(*a, **kw)
+        return out["placements"]
+
+    def rec_alloc(*a, **kw):
+        out["stage"] = "allocate"
+        seen["allocate"] = stage_view(a, kw, ids, o["Vinv"])
+        out["allocations"] = pr.allocate(*a, **kw)
+        return out["allocations"]
+
+    def rec_route(*a, **kw):
+        out["stage"] = "route"
+        seen["route"] = stage_view(a, kw, ids, o["Vinv"])
+        out["routes"] = pr.route(*a, **kw)
+        out["stage"] = "minimise"
+        return out["routes"]
+    rkw = {} if cfg["radius"] is None else {"radius": cfg["radius"]}
+    geometry.random = rutils.random = fake
+    ner.ner_net, ner.copy_and_disconnect_tree = w_ner_net, w_copy
+    lim = common.cpu_limit(cpu_budget(prob))
+    try:
+        lim.__enter__()
+        with warnings.catch_warnings():
+            warnings.simplefilter("ignore")
+            out["stage"] = "derive"
+            if deprecated:
+                kw = {}
+                if not cfg.get("reserve_monitor", True):
+                    kw["reserve_monitor"] = False
+                if not cfg.get("align_sdram", True):
+                    kw["align_sdram"] = False
+                res = pr.wrapper(o["vr"], o["apps"], o["nets"], o["net_keys"], o["machine"], o["cs"],
+                                 place=rec_place, allocate=rec_alloc, route=rec_route, route_kwargs=rkw,
+                                 core_resource=ids[0], sdram_resource=ids[1], **kw)
+                out["targets"] = None
+            else:
+                res = pr.place_and_route_wrapper(o["vr"], o["apps"], o["nets"], o["net_keys"], o["sysinfo"], o["user_cs"],
+                                                 place=rec_place, allocate=rec_alloc, route=rec_route, route_kwargs=rkw,
+                                                 minimise_tables_methods=impl_methods(out["methods"]),
+                                                 core_resource=ids[0], sdram_resource=ids[1], sram_resource=ids[2])
+                out["targets"] = build_routing_table_target_lengths(o["sysinfo"])
+            out["returned"] = res
+            out["tables1"] = res[3]
+            out["tables0"] = routing_tree_to_tables(out["routes"], o["net_keys"])
+        out["status"] = "ok"
+    except (ImportError, SyntaxError):
+        raise
+    except common.ImplHang as e:
+        _HANGS[0] += 1
+        out["status"] = "DidNotReturn"
+        out["error"] = e
+        out["traceback"] = str(e)
+    except Exception as e:      # noqa
+        out["status"] = type(e).__name__
+        out["error"] = e
+        if out["status"] not in DOCUMENTED:
+            import traceback
+            out["traceback"] = traceback.format_exc()[-1500:]
+    finally:
+        lim.__exit__()
+        geometry.random, rutils.random, ner.ner_net, ner.copy_and_disconnect_tree = orig
+    return out
+
+
+def wrap_request(prob, out):
+    """the `wrapper` / `deprecated` request of the Lean driver"""
+    from . import c14
+    base = pipe_request(prob, out) if prob["cfg"]["api"] == "deprecated" else None
+    o = out["o"]
+    ridx = {o["ids"][0]: 0, o["ids"][1]: 1, o["ids"][2]: 2}
+    if base is not None:
+        base.update(suite="c01wrap", op="deprecated", sdram_res=1,
+                    reserve_monitor=bool(prob["cfg"].get("reserve_monitor", True)),
+                    align_sdram=bool(prob["cfg"].get("align_sdram", True)))
+        return base
+    Vinv = o["Vinv"]
+    vr = [[Vinv[v], [[ridx[r], int(a)] for r, a in d.items()]] for v, d in o["vr"].items()]
+    per, tape = out["per_net"], out["tape"]
+    oracle = []
+    for i, pn in enumerate(per):
+        end = per[i + 1]["start"] if i + 1 < len(per) else len(tape)
+        oracle.append({"dests": pn["dests"], "tape": tape[pn["start"]:end], "order": pn["order"]})
+    while len(oracle) < len(prob["nets"]):
+        oracle.append({"dests": [], "tape": [], "order": []})
+    return {"suite": "c01wrap", "op": "wrapper", "sysinfo": c14.si_json(o["sysinfo"]), "vr": vr,
+            "cs": [constraint_json(c, ridx, Vinv) for c in o["user_cs"]],
+            "nets": [[n[0], list(n[1]), n[3], n[4]] for n in prob["nets"]],
+            "placer": {"t": "seq", "vo": None, "co": None}, "radius": radius_value(prob["cfg"]["radius"]),
+            "oracle": oracle, "methods": out["methods"]}
+
+
+def canon_machine(mj):
+    """what a Machine MEANS (a harmless re-choice of the defaults / exceptions is not a difference): extent, the
+    resources of every working chip, the dead links"""
+    dead = set((x, y) for x, y in mj["dead_chips"])
+    exc = {(e[0], e[1]): list(e[2:5]) for e in mj["exceptions"]}
+    dflt = [mj["cores"], mj["sdram"], mj["sram"]]
+    chips = [[x, y] + exc.get((x, y), dflt) for x in range(mj["width"]) for y in range(mj["height"]) if (x, y) not in dead]
+    return {"width": mj["width"], "height": mj["height"], "chips": chips,
+            "dead_links": sorted(map(list, mj["dead_links"])), "ok_shape": mj.get("ok_shape", True)}
+
+
+def alloc_idle_request(prob, out):
+    """`AllocIdle` (Rig.C01Wrap.allocBad) on the placements / allocations the wrapper RETURNED"""
+    from . import c14
+    o = out["o"]
+    Vinv = o["Vinv"]
+    pl, al = out["returned"][:2] if "returned" in out else (out["placements"], out["allocations"])
+    return {"suite": "c01wrap", "op": "alloc_idle", "sysinfo": c14.si_json(o["sysinfo"]),
+            "placement": [[Vinv[v], [int(c[0]), int(c[1])]] for v, c in pl.items()],
+            "alloc": [[Vinv[v], [[0, int(sl.start), int(sl.stop)] for r, sl in va.items() if r is o["ids"][0] or r == o["ids"][0]]]
+                      for v, va in al.items()]}
+
+
+def eval_wrap_problems(ctx, probs):
+    """wrapper models = the real wrappers: derived Machine / constraints / targets as passed to EVERY stage, placements,
+    allocations, unminimised and FINAL tables; oracles: Lean `deliver` on the returned tables, Lean `allocBad` on the
+    returned placements / allocations"""
+    runs, reqs, spans = [], [], []
+    for prob in probs:
+        out = run_wrapper_recorded(prob)
+        runs.append(out)
+        r = [wrap_request(prob, out)]
+        idx = []
+        if out["status"] == "ok":
+            if prob["cfg"]["api"] == "wrapper":
+                r.append(alloc_idle_request(prob, out))
+            light = dict(prob, light=True)
+            r2, idx = lean_requests(light, out, _random.Random(prob["seed"] ^ 0x77))
+            r += r2
+        spans.append((len(reqs), len(reqs) + len(r), idx))
+        reqs += r
+    replies = ctx.lean(reqs) if reqs else []
+    for prob, out, (a, b, idx) in zip(probs, runs, spans):
+        ctx.traces += 1
+        r = replies[a]
+        st = out["status"]
+        api = prob["cfg"]["api"]
+        deprecated = api == "deprecated"
+        tags = ["wrap_api_" + api, "wrap_status_" + st, "wrap_in_domain" if in_domain(prob) else "wrap_OUT_OF_DOMAIN"]
+        diffs = []
+        viol = []
+        if isinstance(r, dict) and "proto_error" in r:
+            diffs.append(("proto", r["proto_error"], ""))
+        else:
+            seen = out["seen"]
+            # what the wrapper derived and passed to every stage it reached
+            want_cs = r.get("constraints")
+            for stage in ("place", "allocate", "route"):
+                if stage not in seen:
+                    continue
+                if seen[stage]["constraints"] != want_cs:
+                    diffs.append(("constraints-at-" + stage, want_cs, seen[stage]["constraints"]))
+                if not deprecated:
+                    gm = seen[stage]["machine"]
+                    wm = canon_machine(r["machine"])
+                    if canon_machine(gm) != wm:
+                        diffs.append(("machine-at-" + stage, wm, gm))
+                if stage == "route" and seen[stage].get("core_resource", 0) != 0:
+                    diffs.append(("core-resource-at-route", 0, seen[stage].get("core_resource")))
+            if not deprecated and out.get("targets") is not None:
+                tg = sorted([int(c[0]), int(c[1]), int(t)] for c, t in out["targets"].items())
+                if tg != sorted(r["targets"]):
+                    diffs.append(("target-lengths", sorted(r["targets"])[:20], tg[:20]))
+            if st == "ok":
+                if "ok" not in r:
+                    diffs.append(("outcome", str(r.get("error"))[:200], "ok"))
+                else:
+                    mo = r["ok"]
+                    ridx = {rid: i for i, rid in enumerate(out["o"]["ids"])}
+                    Vinv = out["o"]["Vinv"]
+                    rpl, ral, _, rtab = out["returned"]
+                    pl = [[v, [c[0], c[1]]] for v, c in mo["placement"]]
+                    ipl = [[Vinv[v], list(c)] for v, c in rpl.items()]
+                    al = {v: sorted(map(tuple, va)) for v, va in mo["alloc"]}
+                    ial = {Vinv[v]: sorted((ridx[r_], sl.start, sl.stop) for r_, sl in va.items()) for v, va in ral.items()}
+                    t0 = tables_c04(out["tables0"])
+                    t1 = tables_c04(rtab)
+                    m0 = {(x, y): t for x, y, t in mo["tables0"]}
+                    m1 = {(x, y): t for x, y, t in mo["tables"]}
+                    if rpl is not out["placements"] or ral is not out["allocations"]:
+                        diffs.append(("returned-objects", "the stages' results", "other objects"))
+                    if pl != ipl:
+                        diffs.append(("place", pl, ipl))
+                    elif al != ial:
+                        diffs.append(("allocate", al, ial))
+                    elif m0 != t0:
+                        bad = [c for c in set(m0) | set(t0) if m0.get(c) != t0.get(c)]
+                        diffs.append(("tables", (bad[:3], m0.get(bad[0])), t0.get(bad[0])))
+                    elif m1 != t1:
+                        bad = [c for c in set(m1) | set(t1) if m1.get(c) != t1.get(c)]
+                        diffs.append(("final-tables", (bad[:3], m1.get(bad[0])), t1.get(bad[0])))
+                    if not deprecated and not r.get("alloc_idle", True):
+                        diffs.append(("model-alloc-idle", "false", "proved true"))
+                    if t0 != t1:
+                        tags.append("wrap_tables_changed")
+                    if any(pn["order"] for pn in out["per_net"]):
+                        tags.append("wrap_repaired")
+                # oracles on the implementation's own results
+                k = a + 1
+                if not deprecated:
+                    ai = replies[k]
+                    k += 1
+                    if isinstance(ai, dict) and "proto_error" in ai:
+                        diffs.append(("proto-alloc-idle", ai["proto_error"], ""))
+                    elif not ai["holds"]:
+                        v, x, y, p = ai["bad"][0]
+                        viol.append(("allocated-core-not-idle",
+                                     "place_and_route_wrapper allocated core %d of chip (%d, %d) to vertex %d although the "
+                                     "SystemInfo reports that core %s (packets of nets with this sink are delivered to a core "
+                                     "that is not the sink's; %d such cores)" % (
+                                         p, x, y, v, "busy" if (x, y, p) in set(
+                                             (bx, by, bp) for bx, by, b in prob["busy"] for bp in b) else "absent or not idle",
+                                         len(ai["bad"]))))
+                        tags.append("wrap_alloc_not_idle")
+                findings, jt, _ = judge(prob, out, replies[k:b], idx)
+                for kind, key, what in findings:
+                    if kind == "violation":
+                        viol.append((key, what))
+                    else:
+                        diffs.append((key, "-", what))
+            elif st == "DidNotReturn":
+                viol.append(("did-not-return", "%s (sequential placer) did not return at stage %s: %s; every stage of the "
+                             "model pipeline is proved to terminate" % (api, out.get("stage"), out.get("traceback"))))
+            else:
+                want = pipe_expected_error(out)
+                e = r.get("error") if isinstance(r, dict) else None
+                if want is None:
+                    diffs.append(("pipeline-exception", "-", "%s at %s: %s" % (st, out.get("stage"), out.get("traceback", "")[-500:])))
+                elif e is None or any(e.get(k_) != v_ for k_, v_ in want.items()):
+                    diffs.append(("outcome", str(r)[:200], "%s at stage %s" % (st, out.get("stage"))))
+                tags.append("wrap_fail_at_" + str(out.get("stage")))
+        for d in diffs[:3]:
+            ctx.mismatch("c01wrap." + d[0], "model wrapper (%s) and implementation (sequential placer) differ at %s: model=%s "
+                         "impl=%s" % (api, d[0], str(d[1])[:300], str(d[2])[:300]), prob)
+            tags.append("wrap_mismatch_" + d[0])
+        seenv = set()
+        for key, what in viol:
+            if key not in seenv:
+                seenv.add(key)
+                ctx.violation(key, what + " [wrapper stream: api %s, sequential placer]" % api, prob)
+        ctx.tag(*tags)
+        ctx.case(prob, st == "ok" and ("wrap_tables_changed" in tags or "wrap_repaired" in tags))
 
 
 # --------------------------------------------------------------------------------------------
@@ -2444,6 +2843,17 @@ def run(ctx):
     eval_sequences(ctx, nseq)
     # a handful of cases far beyond the usual size
     eval_scale(ctx, ctx.scale(3, 12))
+    # the wrapper models (subject of `wrapper_pipeline_delivers`) = the real wrappers, SystemInfo onwards
+    # (last, so that the earlier streams draw what they drew before this stream existed)
+    nwrap = ctx.scale(100, 1000)
+    if ctx.extended:
+        nwrap *= 4
+    wprobs = []
+    for i in range(nwrap):
+        sz = sizes if (ctx.quick or ctx.rng.random() < 0.35) else SIZES_Q
+        wprobs.append(gen_wrap_problem(ctx.rng, sz, i, faulty=(i % 4 == 3)))
+    for i in range(0, len(wprobs), 30):
+        eval_wrap_problems(ctx, wprobs[i:i + 30])
 
 
 def replay(ctx, payload):
@@ -2463,6 +2873,8 @@ def replay(ctx, payload):
                     else:
                         ctx.mismatch(key, what, prob)
         ctx.case(payload["case"], True)
+    elif payload["case"].get("wrap"):
+        eval_wrap_problems(ctx, [payload["case"]])
     elif payload["case"].get("pipe"):
         eval_pipe_problems(ctx, [payload["case"]])
     else:
